@@ -114,7 +114,8 @@ def gen_stub(name, sig, ret, text):
         if kind == 'ensures': ens.append(replace_calls(c, '__CPROVER_old', old_sub))
     for i, e in enumerate(olds):
         body.append(f'  __typeof__({e}) y_old_{i} = ({e});')
-    # havoc
+    # havoc: target addresses (and conditions) are evaluated in the pre-state, as dfcc does, then the targets are havocked
+    targets = []; phase2 = []; k = 0
     for kind, c in cl:
         if kind != 'assigns' or not c: continue
         for grp in split_top(c, ';'):
@@ -124,11 +125,19 @@ def gen_stub(name, sig, ret, text):
             if len(parts) > 1 and '?' not in parts[0]:
                 cond = parts[0]; grp = ':'.join(parts[1:])
             for t in split_top(grp, ','):
+                k += 1
                 m = re.match(r'__CPROVER_object_whole\s*\((.*)\)$', t, re.S)
-                if m: st = f'__CPROVER_havoc_object((void*)({m.group(1)}));'
+                if cond: body.append(f'  _Bool y_tc_{k} = ({cond});')
+                pre = f'if (y_tc_{k}) ' if cond else ''
+                if m:
+                    body.append(f'  void* y_tp_{k} = (void*)({m.group(1)});')
+                    phase2.append(f'  {pre}__CPROVER_havoc_object(y_tp_{k});')
                 elif t.startswith('__CPROVER_'): raise Abort(f'stub={name}: unsupported assigns target {t}')
-                else: st = f'{{ __typeof__({t}) y_h; ({t}) = y_h; }}'
-                body.append('  ' + (f'if ({cond}) ' if cond else '') + st)
+                else:
+                    targets.append(t)
+                    body.append(f'  __typeof__({t})* y_tp_{k} = ' + (f'y_tc_{k} ? &({t}) : 0;' if cond else f'&({t});'))
+                    phase2.append(f'  {pre}{{ __typeof__({t}) y_h; *y_tp_{k} = y_h; }}')
+    body += phase2
     if not void:
         body.append(f'  {ret} y_ret;')
         for e in ens:
@@ -136,9 +145,32 @@ def gen_stub(name, sig, ret, text):
                 m = re.match(r'^\(*\s*__CPROVER_return_value\s*==\s*(.*)$', conj.strip(), re.S)
                 if m and '__CPROVER_return_value' not in m.group(1) and '__CPROVER_is_fresh' not in m.group(1) and conj.count('(') == conj.count(')'):
                     body.append(f'  y_ret = ({ret})({m.group(1)});'); break
+    norm = lambda t: re.sub(r'\s+', '', t)
+    def strip_par(t):
+        t = t.strip()
+        while t.startswith('(') and balanced(t, 0) == len(t): t = t[1:-1].strip()
+        return t
+    strip_all = lambda t: t.replace('(', '').replace(')', '')
+    tnorm = {norm(strip_par(t)) for t in targets}; tnorm_all = {norm(strip_all(t)) for t in targets}
+    # fresh objects promised by the ensures clauses are allocated first (their pointers are then precise for the anchors below)
+    ens = [e.replace('__CPROVER_return_value', 'y_ret') for e in ens]
     for e in ens:
-        e2 = e.replace('__CPROVER_return_value', 'y_ret')
-        e2 = replace_calls(e2, '__CPROVER_is_fresh', lambda a: f'y_sf_new((void**)&({a[0]}), (uint64_t)({a[1]}))')
+        replace_calls(e, '__CPROVER_is_fresh', lambda a: (body.append(f'  y_sf_new((void**)&({a[0]}), (uint64_t)({a[1]}));'), '')[1])
+    for e in ens:
+        e2 = replace_calls(e, '__CPROVER_is_fresh', lambda a: '1')
+        # anchoring: a top-level conjunct `T == E` whose side T is one of the havocked targets is ALSO performed as the
+        # assignment T = E before the assumption (it removes no state that satisfies the clause; it keeps the value set of a
+        # pointer-typed T precise for symex, which an assumed equality does not)
+        for conj in split_top_str(e2, '&&'):
+            c = strip_par(conj)
+            parts = split_top_str(c, '==')
+            if len(parts) == 2 and 'y_sf_new' not in c and '!=' not in parts[0][-1:] :
+                a, b = strip_par(parts[0]), strip_par(parts[1])
+                if a.endswith(('!', '<', '>', '=')) or b.startswith('='): continue
+                unold = lambda t: re.sub(r'y_old_(\d+)', lambda m: '(' + olds[int(m.group(1))] + ')' if int(m.group(1)) < len(olds) else m.group(0), t)
+                # a target written with pre-state sub-expressions (`arr[old(n)]`) is the target `arr[n]` evaluated in the pre-state
+                if norm(a) in tnorm or norm(strip_all(unold(a))) in tnorm_all: body.append(f'  ({a}) = ({b});')
+                elif norm(b) in tnorm or norm(strip_all(unold(b))) in tnorm_all: body.append(f'  ({b}) = ({a});')
         body.append(f'  __CPROVER_assume({e2});')
     if not void: body.append('  return y_ret;')
     return f'/* stub compiled from the contract of {name} (ystubgen) */\n{sig}\n{{\n' + '\n'.join(body) + '\n}\n'
